@@ -918,6 +918,10 @@ func init() {
 		for _, rt := range []string{"rds", "eds", "cds"} {
 			lockStress(c, rt, 900)
 		}
+		cbPolicyBeforeData(c)
+		for _, rt := range []string{"rds", "cds"} {
+			handlerPanic(c, rt)
+		}
 		t0 = time.Now()
 		runAll(c)
 		c.count("ms.schedules", int(time.Since(t0).Milliseconds()))
